@@ -45,6 +45,9 @@ func (p *packageParse) clear() {
 // parse 返回一个或者多个完成的包
 func (p *packageParse) parse(data []byte) ([]*Message, error) {
 	msgs, err := p.unpack(data)
+	if len(p.timeoutRecord) > 0 {
+		p.deleteTimeoutPackage() // 超时的分包先丢弃 不能再被后到的包补全
+	}
 	for _, msg := range msgs {
 		if completeMsg, ok := p.completePack(msg); ok {
 			msgs = append(msgs, completeMsg)
